@@ -50,10 +50,12 @@ Step ==
         lm == Legal(pos)
         sp == Special(lm)
         deep == Len(stack) >= MaxDepth
+        onEp == {m \in lm : pos.ep # -1 /\ m.to = pos.ep}     \* any piece moving onto the en-passant square
     IN  \E k \in kk :    \* bound once: a LET body would be re-evaluated, drawing again
         IF MODE = "game"
         THEN /\ ~deep
-             /\ IF k <= 7 /\ sp # {} THEN DoMove(sp) ELSE DoMove(lm)
+             /\ IF k <= 10 /\ onEp # {} THEN DoMove(onEp)
+                ELSE IF k <= 7 /\ sp # {} THEN DoMove(sp) ELSE DoMove(lm)
         ELSE IF (k <= 5 \/ deep \/ lm = {}) /\ stack # <<>>
              THEN \/ Undo /\ Log("undo", -1, "")
                   \/ UndoNull /\ Log("undonull", -1, "")
